@@ -67,6 +67,17 @@ FIRST = {
  'C18-m5': ['C18'], 'C18-m6': ['C18'],
  'C19-m5': ['C19'], 'C19-m6': [],
  'C20-m5': ['C20'], 'C20-m6': ['C20'],
+ # round 4 (m7, m8): ten properties (those with the most misses so far)
+ 'C02-m7': ['C02', 'C05', 'C18'], 'C02-m8': ['C02', 'C09'],
+ 'C03-m7': ['C01', 'C03', 'C06', 'C09'], 'C03-m8': ['C03', 'C06'],
+ 'C07-m7': ['C05', 'C07'], 'C07-m8': ['C05', 'C07', 'C09', 'C11', 'C17'],
+ 'C08-m7': ['C06', 'C08'], 'C08-m8': ['C05', 'C06', 'C08'],
+ 'C10-m7': ['C05', 'C09', 'C10'], 'C10-m8': ['C10'],
+ 'C11-m7': ['C11'], 'C11-m8': ['C09', 'C11', 'C19'],
+ 'C12-m7': ['C12', 'C17'], 'C12-m8': [],
+ 'C13-m7': [], 'C13-m8': ['C13'],
+ 'C17-m7': ['C17'], 'C17-m8': ['C17'],
+ 'C19-m7': ['C19'], 'C19-m8': ['C19'],
 }
 # after strengthening the owning check (re-run of the owning check only)
 AFTER = {
@@ -102,6 +113,8 @@ AFTER = {
  'C13-m6': (['C13'], 'C13: a high-surrogate \\u escape followed by a second escape or character is still rejected'),
  'C17-m6': (['C17'], 'C17: type names occurring in the source are bound as (unreported) variables in the relevance check; match type patterns in the position grid'),
  'C19-m6': (['C19', 'C11'], 'C19: programs with a map constant are read back 6 more times and each copy must behave like the original; behaviour that depends on the layout of a rebuilt map is now a violation instead of a skip; macros over map constants in the grid. C11: the same macros and string(map) in the history pool and on 16 threads'),
+ 'C12-m8': (['C12', 'C01'], 'C12: self and mutual cycles through 1..8 nested macro bodies, run in children of the unoptimised and the release build on both stack sizes (vcheck builds profile opt0 for C12 too); C01: four nested-macro-body cycle shapes in its cycle list'),
+ 'C13-m7': (['C13'], 'C13: a sign, blank, underscore, dot or non-hex letter in every digit position of \\x, \\u and \\U escapes'),
  'C20-m4': (['C20'], 'C20: the SQL re-parser lets a type name absorb a following [..] / (..) as SQL does - which also exposed the same defect on the unchanged tree for the empty map literal (repaired, 0ecc3cf)'),
 }
 for d in sorted(os.listdir(ROOT)):
